@@ -197,7 +197,15 @@ class ManifestFileEntry(ManifestPathEntry):
                 and self.size == other.size
                 and self.checksums == other.checksums)
 
-    # for the purpose of __lt__, the path is good enough for sorting
+    def __lt__(self, other):
+        # the path usually suffices; fall back to the remaining fields
+        # so that entries with the same path (e.g. duplicate DIST
+        # entries) do not keep whatever order they had before
+        if (self.tag == other.tag and self.path == other.path
+                and isinstance(other, ManifestFileEntry)):
+            return ((self.size, sorted(self.checksums.items()))
+                    < (other.size, sorted(other.checksums.items())))
+        return super().__lt__(other)
 
 
 class ManifestEntryMANIFEST(ManifestFileEntry):
